@@ -403,7 +403,7 @@ def sign_match_cases(rng, res, n, base=None):
                                   "verify_with_empty_output", "verify_many", "verify_many", "verify_many", "link_verify_gpg_no_id",
                                   "verify_both_key_kinds", "verify_both_key_kinds",
                                   "gpg_sign_verify_ok", "gpg_verify_other_key", "gpg_sign_default_key", "gpg_sign_envelope",
-                                  "verify_missing_key_file", "verify_garbage_key_file"], base, j)
+                                  "verify_missing_key_file", "verify_garbage_key_file", "sign_with_output", "match_only_in_products"], base, j)
             if variant.startswith("gpg_") and not W.gpg_available():
                 variant = "sign_verify_ok"
             if variant.startswith("gpg_"):
@@ -422,6 +422,19 @@ def sign_match_cases(rng, res, n, base=None):
                     _av = ["-f", "l.layout", "--verify", "-g", vg.keyid, "--gpg-home", vg.gpg_home]
                     st, _o, _e = cli.run_main("in_toto_sign", _av)
                     record(res, "sign_verify", {"variant": variant}, st, "sig" if variant == "gpg_verify_other_key" else "success")
+            elif variant == "sign_with_output":
+                # -o: the signed layout goes to the named file (status 0 iff it is there), the input stays as it was
+                before = open("l.layout", "rb").read()
+                _av = ["-f", "l.layout", "-k", priv_path(k), "-o", "signed.layout"]
+                st, _o, _e = cli.run_main("in_toto_sign", _av)
+                record(res, "sign", {"variant": variant, "dsse": dsse, "key": k.kind}, st, "success", expect_file=os.path.join(d, "signed.layout"),
+                       argv=_av, file_kind="layout")
+                if open("l.layout", "rb").read() != before:
+                    res.fail("oracle", {"op": "cli_status", "tool": "sign", "args": {"variant": variant}, "outcome": "success"},
+                             {"why": "in-toto-sign -o changed its input file"})
+                _av = ["-f", "signed.layout", "-k", write_pub_pem(k, d), "--verify"]
+                st, _o, _e = cli.run_main("in_toto_sign", _av)
+                record(res, "sign_verify", {"variant": variant, "dsse": dsse, "key": k.kind}, st, "success", argv=_av, file_kind="layout")
             elif variant in ("verify_missing_key_file", "verify_garbage_key_file"):
                 # a signed layout checked with a key file that is not there / is not a key: the check could not be made -
                 # neither "verified" nor "bad signature"
@@ -563,6 +576,12 @@ def sign_match_cases(rng, res, n, base=None):
                     open("a.txt", "w").write("changed\n"); outcome = "differ"
                 elif variant == "match_extra_file":
                     open("b.txt", "w").write("b\n"); argv += ["b.txt"]; outcome = "differ"
+                elif variant == "match_only_in_products":
+                    # the link lists a product that is not among the local files
+                    lk = Link(name="s", products={"a.txt": {"sha256": hashlib.sha256(b"a\n").hexdigest()},
+                                                  "gone.txt": {"sha256": hashlib.sha256(b"g\n").hexdigest()}})
+                    (Envelope.from_signable(lk) if dsse else Metablock(signed=lk)).dump(os.path.join(d, "s.link"))
+                    outcome = "differ"
                 elif variant.startswith("match_exclude_replaces_defaults"):
                     # patterns given with --exclude REPLACE the default ones (as everywhere in in-toto): a stray byte-code
                     # file is then a local file like any other - not in the products, unless the step recorded it
